@@ -213,6 +213,26 @@ def run(ctx: Ctx) -> int:
             ok = (ea is not None and isinstance(ea, ast.Constant) and ea.value is False) or (via_table and djk is not None and isinstance(djk.get("ensure_ascii"), ast.Constant) and djk["ensure_ascii"].value is False)
             ctx.oblige("C01.a", ok, c, f"{name} writes non-ASCII characters literally (ensure_ascii=False): no surrogate-pair escapes the yaml loader would reject" if ok else f"{name} calls json.dumps with ensure_ascii on: a string with a character outside the BMP is written as a surrogate-pair escape that the yaml loader cannot read back", fn=fn)
 
+    # the yaml classes are the SAFE ones: an unsafe dumper writes `!!python/...` tags (tuples, enums, arbitrary
+    # objects) that the safe loader rejects - a dump / save that succeeds and cannot be read back
+    for fname in ("get_yaml_default_dumper", "get_yaml_default_loader"):
+        fn_ = ctx.func(f"_loaders_dumpers:{fname}")
+        for cd in [n_ for n_ in walk_local(fn_, include_nested=True) if isinstance(n_, ast.ClassDef)]:
+            names_ = [x for b in cd.bases for x in ast.walk(b) if (isinstance(x, ast.Attribute) and ("Dumper" in x.attr or "Loader" in x.attr)) or (isinstance(x, ast.Constant) and isinstance(x.value, str) and ("Dumper" in x.value or "Loader" in x.value))]
+            labels = [x.attr if isinstance(x, ast.Attribute) else x.value for x in names_]
+            ok = bool(labels) and all("Safe" in l for l in labels)
+            ctx.oblige("C01.a", ok, cd, f"{cd.name} derives from the safe yaml classes {labels}" if ok else f"{cd.name} derives from {labels}: not a Safe* class - values that are not plain yaml (tuples, enums) are written with python tags the loader rejects, or unsafe tags are accepted on load", fn=fn_)
+    # JSON text is recognised whatever whitespace surrounds it (files end with a newline)
+    llod = ctx.func("_loaders_dumpers:load_list_or_dict")
+    lp_ = llod.args.args[0].arg
+    stripped = {s_.targets[0].id for s_ in walk_local(llod) if isinstance(s_, ast.Assign) and isinstance(s_.targets[0], ast.Name) and isinstance(s_.value, ast.Call) and call_leaf(s_.value) == "strip" and root_name(s_.value.func) == lp_}
+    tests_ = [c for c in calls_in(llod) if call_leaf(c) in ("startswith", "endswith")]
+    loads_ = [c for c in calls_in(llod) if call_name(c) == "json.loads"]
+    def _is_stripped(e):
+        return (isinstance(e, ast.Name) and e.id in stripped) or (isinstance(e, ast.Call) and call_leaf(e) == "strip")
+    ok = bool(tests_) and all(_is_stripped(c.func.value) for c in tests_) and bool(loads_)
+    ctx.oblige("C01.a", ok, tests_[0] if tests_ else llod, "the JSON fallback of non-JSON-superset modes looks at the stripped text" if ok else "the JSON fallback tests the raw text for [..] / {..}: a *.json sub-file written by save (it ends with a newline) is no longer recognised under parser modes whose loader is not a JSON superset (toml, custom)", fn=llod, construct="json fallback on stripped text")
+
     # a dump header is a comment: it is only written for formats whose readers accept that comment syntax, and
     # the prefix is chosen by the FORMAT NAME (json_indented and jsonnet share one dumper function)
     cp = None
